@@ -92,6 +92,10 @@ def run_bridge(out, stream, dgrams):
             else: res.append("ignored")
         return res
     io = asyncio.run(go())
+    lost = [k for k, t in enumerate(io) if t == "barrier-lost"]
+    if lost:
+        keep = dgrams; dgrams = [keep[k] for k in lost]; again = asyncio.run(go()); dgrams = keep
+        for k, t in zip(lost, again): io[k] = t
     mo = [m if m in ("ignored", "warned", "raised") else "delivered" for m in lib.run_model([lib.req("bcast", d) for d in dgrams])]
     ex = expected(dgrams); cs = [{"d": d.hex()} for d in dgrams]
     lib.differential(out, stream, cs, io, mo, ex, describe, sample=describe, classify=lambda c, i: "bridge/" + i)
